@@ -412,6 +412,7 @@ func (s *handler) handle(ctx context.Context, req request, w func(func(io.Writer
 
 	vhook("handle.call", s, req.Method, req.ID)
 	callResult, err := doCall(req.Method, handler.handlerFunc, callParams)
+	vhook("handle.ret", s, req.Method, req.ID, err == nil)
 	if err != nil {
 		rpcError(w, &req, 0, xerrors.Errorf("fatal error calling '%s': %w", req.Method, err))
 		stats.Record(ctx, metrics.RPCRequestError.M(1))
@@ -481,6 +482,7 @@ func (s *handler) handle(ctx context.Context, req request, w func(func(io.Writer
 		log.Errorw("error and res returned", "request", req, "r.err", resp.Error, "res", res)
 	}
 
+	vhook("handle.resp", s, req.Method, req.ID, resp.Error != nil)
 	withLazyWriter(w, func(w io.Writer) {
 		if err := json.NewEncoder(w).Encode(resp); err != nil {
 			log.Error(err)
